@@ -1138,9 +1138,10 @@ func (fr *Frame) loopClauses(li *loopInfo) (invs []*LoopClause, decs []*LoopClau
 		if lc.Ord != li.ord {
 			continue
 		}
-		if lc.Kind == "invariant" {
+		switch lc.Kind {
+		case "invariant":
 			invs = append(invs, lc)
-		} else {
+		case "decreases":
 			decs = append(decs, lc)
 		}
 	}
@@ -1161,6 +1162,16 @@ func (fr *Frame) loopHead(li *loopInfo, st *State) *State {
 	for k, lc := range invs {
 		g := fr.evalBool(lc.Expr, st, lc.Src)
 		p.oblige(fr.loopName(li, "inv-init", k+1), "inv-init", headPos, st.Guard, g, "loop invariant holds on entry: "+lc.Src)
+	}
+	if fr.con != nil {
+		k := 0
+		for _, lc := range fr.con.Loops {
+			if lc.Ord == li.ord && lc.Kind == "entryassert" {
+				k++
+				g := fr.evalBool(lc.Expr, st, lc.Src)
+				p.oblige(fr.loopName(li, "entry-assert", k), "assert", headPos, st.Guard, g, "when the loop is entered: "+lc.Src)
+			}
+		}
 	}
 	li.entrySt = st
 	auto := fr.autoRange(li)
@@ -1305,6 +1316,21 @@ func (fr *Frame) backEdge(li *loopInfo, st *State) {
 	p := fr.p
 	invs, decs := fr.loopClauses(li)
 	pos := loopPos(li)
+	if fr.con != nil {
+		k := 0
+		for _, lc := range fr.con.Loops {
+			if lc.Ord == li.ord && lc.Kind == "endassert" {
+				k++
+				g, ok := fr.tryEvalBool(lc.Expr, st, lc.Src)
+				if !ok {
+					// this back edge leaves the body before the locals named by the assertion exist (continue)
+					p.note("loop-end assertion skipped on an edge where its locals are not declared: " + lc.Src)
+					continue
+				}
+				p.oblige(fr.loopName(li, "end-assert", k), "assert", pos, st.Guard, g, "at the end of every iteration: "+lc.Src)
+			}
+		}
+	}
 	for k, lc := range invs {
 		g := fr.evalBool(lc.Expr, st, lc.Src)
 		p.oblige(fr.loopName(li, "inv-pres", k+1), "inv-pres", pos, st.Guard, g, "loop invariant preserved: "+lc.Src)
